@@ -153,6 +153,8 @@ type worker struct {
 	bar  *barrier // nil: free running
 	step int
 	st   *stager // staged programs only
+	bufs [][]int // every buffer this goroutine passed (a window of) to Slice.Append
+	junk int
 }
 
 // stager turns the callback of Range / ForEach into a scheduling point: when the
@@ -312,7 +314,11 @@ func (w *worker) exec(o opSpec) {
 	case "atomic.hstore":
 		hp.Store(o.V)
 	case "slice.append":
-		res = w.o.s.Append(o.Items...)
+		// the arguments are a window of a larger caller-owned buffer (spare capacity behind it) ...
+		buf := make([]int, len(o.Items)+3+len(w.bufs)%3)
+		copy(buf, o.Items)
+		res = w.o.s.Append(buf[:len(o.Items)]...)
+		w.bufs = append(w.bufs, buf)
 	case "slice.slen":
 		res = w.o.s.Len()
 	case "slice.slice":
@@ -325,6 +331,26 @@ func (w *worker) exec(o opSpec) {
 	}
 	w.yield()
 	w.r.ret(id, res)
+	if o.Obj == "slice" && len(w.bufs) > 0 {
+		w.callerWrite()
+	}
+}
+
+// callerWrite: ... which the caller goes on using as its own: it overwrites every
+// buffer it ever passed to Append (elements and spare capacity) and appends to
+// it.  Recorded as "callerwrite", which is not an operation on the object: an
+// ordinary slice `s = append(s, items...)` never depends on the caller's later
+// writes to items.
+func (w *worker) callerWrite() {
+	id := w.r.call(opSpec{Obj: "slice", Op: "callerwrite"}, nil)
+	w.junk++
+	for _, b := range w.bufs {
+		for i := range b {
+			b[i] = -(1000*w.junk + i)
+		}
+		_ = append(b[:0], -7, -8, -9)
+	}
+	w.r.ret(id, 0)
 }
 
 // runProgram executes p on fresh objects and returns the recorded events and
@@ -473,7 +499,11 @@ func duelProgram(rng *rand.Rand, which int) program {
 	n := 2 + rng.Intn(3)
 	m := func(op, k string, v int) opSpec { return opSpec{Obj: "map", Op: op, K: k, V: v, N: 99} }
 	a := func(op, k string, v int) opSpec { return opSpec{Obj: "atomic", Op: op, K: k, V: v} }
-	switch which % 9 {
+	sel := which % 12
+	if sel >= 10 { // the LoadAndDelete duel has the narrowest window: it gets three slots of twelve
+		sel = 0
+	}
+	switch sel {
 	case 0: // one Store, then everybody LoadAndDelete: at most one may win
 		return program{Name: "duel-loadanddelete", Setup: []opSpec{m("store", "a", 7)},
 			Procs: rep(n, func(i int) []opSpec {
@@ -549,6 +579,19 @@ func duelProgram(rng *rand.Rand, which int) program {
 					return []opSpec{m("delete", "a", 0), m("load", "a", 0), m("store", "a", 100*(i+1)), m("loadanddelete", "a", 0), m("len", "", 0)}
 				}
 			})}
+	case 9: // a handle KEPT across Delete is a detached private counter: Adds through it never reach any key of the map
+		h := func(op string, sel, v int) opSpec { return opSpec{Obj: "atomic", Op: op, K: "a", V: v, HSel: sel} }
+		return program{Name: "duel-retained-handle", Setup: []opSpec{a("getorcreate", "a", 10)},
+			Procs: rep(n, func(i int) []opSpec {
+				switch i {
+				case 0:
+					return []opSpec{a("adelete", "a", 0), a("getorcreate", "b", 0), h("hload", 1, 0), h("hload", 1, 0), h("hload", 0, 0)}
+				case 1:
+					return []opSpec{h("hadd", 0, 1), h("hadd", 0, 1), h("hadd", 0, 1), h("hload", 0, 0)}
+				default:
+					return []opSpec{h("hadd", 0, 1), a("getorcreate", "c", 0), h("hload", 1, 0), h("hstore", 0, 70*(i+1)), h("hload", 1, 0)}
+				}
+			})}
 	default: // ForEach / Get against GetOrCreate on several keys
 		return program{Name: "duel-foreach", Setup: []opSpec{a("getorcreate", "a", 10)},
 			Procs: rep(n, func(i int) []opSpec {
@@ -580,7 +623,20 @@ func stagedProgram(rng *rand.Rand, which int) program {
 	}
 	p := program{Staged: true, Setup: []opSpec{}}
 	var writer []opSpec
-	switch (which / 4) % 3 {
+	switch (which / 4) % 5 {
+	case 3: // sequential: keep a handle, delete its key, create other keys, use the old handle
+		h := func(op string, sel, v int) opSpec { return opSpec{Obj: "atomic", Op: op, K: "a", V: v, HSel: sel} }
+		g := func(op, k string, v int) opSpec { return opSpec{Obj: "atomic", Op: op, K: k, V: v} }
+		other := []string{"b", "a"}[which%2] // another key, or the same key re-created
+		return program{Name: "seq-retained-handle", Setup: []opSpec{
+			g("getorcreate", "a", 10), h("hadd", 0, 1), g("adelete", "a", 0), g("getorcreate", other, 0), h("hload", 1, 0),
+			h("hadd", 0, 5), h("hload", 1, 0), h("hload", 0, 0), g("get", other, 0), h("hstore", 0, 77), h("hload", 1, 0),
+			g("getorcreate", "c", 0), h("hadd", 0, 1), h("hload", 3, 0), {Obj: "atomic", Op: "foreach"}}}
+	case 4: // sequential: Append windows of caller-owned buffers (first Append on the empty container and later ones)
+		it := func(items ...int) opSpec { return opSpec{Obj: "slice", Op: "append", Items: items} }
+		first := [][]int{{1, 2, 3}, {1}, {1, 2}, {}}[which%4]
+		return program{Name: "seq-append-caller-buffer", Setup: []opSpec{
+			it(first...), {Obj: "slice", Op: "slice"}, {Obj: "slice", Op: "slen"}, it(4), {Obj: "slice", Op: "slice"}, it(5, 6), it(), {Obj: "slice", Op: "slice"}, {Obj: "slice", Op: "slen"}}}
 	case 0:
 		p.Name = "staged-range-vs-store-" + dir
 		for _, k := range keys {
